@@ -1,8 +1,9 @@
 SPECIFICATION Spec
-CONSTANTS Pfx = {"A", "B"} MaxHops = 2 MaxCid = 3 QCap = 100 MaxDepth = 100000 LeakDetached = FALSE AnyState = FALSE MaxInst = 6 Lifecycle = TRUE UnloadClears = FALSE CandInit = {TRUE, FALSE}
+CONSTANTS Pfx = {"A", "B"} MaxHops = 2 MaxCid = 3 QCap = 100 MaxDepth = 100000 LeakDetached = FALSE AnyState = FALSE MaxInst = 6 Lifecycle = TRUE UnloadClears = FALSE CandInit = {TRUE, FALSE} CloseWays = {"close", "closeR", "remove", "removeR", "removeNow", "removeD"} ReasonDecides = FALSE ReadyInit = FALSE
 INVARIANT TypeOK
 INVARIANT NoRawForAnon
 INVARIANT TunnelledOnlyOverReadyRightCircuit
 INVARIANT QueueBounded
 INVARIANT PlainUnaffected
 INVARIANT SwitchFollowsRequests
+INVARIANT StateFollowsClose
